@@ -743,7 +743,60 @@ impl Ctx {
     let r = self.rng.gen_range(1..=nr);
     let info = self.runes[r - 1].clone();
     let fee = "1".to_string();
-    match self.rng.gen_range(0..12) {
+    match self.rng.gen_range(0..13) {
+      12 => {
+        // send one of the wallet's inscriptions (ordinal-aware builder, end to end)
+        let mut held = Vec::new();
+        for (o, _) in self.wallet_utxos() {
+          for id in self.w.index.get_inscriptions_for_output(o)?.unwrap_or_default() {
+            held.push((id, o));
+          }
+        }
+        if held.is_empty() {
+          return Ok(());
+        }
+        let (id, from) = held[self.rng.gen_range(0..held.len())];
+        let dest = self.foreign[5].clone();
+        let mut before = Vec::new();
+        for (other, o) in &held {
+          if *other != id {
+            before.push((*other, self.w.index.get_inscription_satpoint_by_id(*other)?, *o));
+          }
+        }
+        let from_label = self.label(from);
+        let from_runic = !self.balances(from)?.is_empty();
+        let from_count = self.insc_count(from)?;
+        let args = vec!["wallet".into(), "send".into(), "--fee-rate".into(), fee, dest.to_string(), id.to_string()];
+        self.op("sendinsc", json!({"from": from_label, "fromRunic": from_runic, "fromCount": from_count}), args, &[dest.clone()], false)?;
+        // where everything is afterwards
+        let sp = self.w.index.get_inscription_satpoint_by_id(id)?;
+        let owner = sp
+          .and_then(|sp| self.tx_of(sp.outpoint.txid).and_then(|t| t.output.get(sp.outpoint.vout as usize).map(|x| self.owner(&x.script_pubkey))))
+          .unwrap_or("none".into());
+        let mut moved = 0;
+        for (other, was, o) in &before {
+          if *o != from && self.w.index.get_inscription_satpoint_by_id(*other)? != *was {
+            moved += 1;
+          }
+        }
+        let mut companions_kept = true;
+        for (other, _, o) in &before {
+          if *o == from {
+            // an inscription that shared the output must still be the wallet's
+            let now = self.w.index.get_inscription_satpoint_by_id(*other)?;
+            let own = now
+              .and_then(|sp| self.tx_of(sp.outpoint.txid).and_then(|t| t.output.get(sp.outpoint.vout as usize).map(|x| self.owner(&x.script_pubkey))))
+              .unwrap_or("none".into());
+            if own != "wallet" {
+              companions_kept = false;
+            }
+          }
+        }
+        if let Some(row) = self.rows.last_mut() {
+          row["sent"] = json!({"owner": if owner == "d6" { "d1".to_string() } else { owner }, "offset": sp.map(|s| s.offset.min(2_000_000_000)).unwrap_or(0), "othersMoved": moved, "companionsKept": companions_kept});
+        }
+        Ok(())
+      }
       10 | 11 => {
         // an offer for somebody else's inscription: node-funded, returns a PSBT, broadcasts nothing
         let Some(theirs) = self.theirs else { return Ok(()) };
